@@ -115,6 +115,8 @@ AuxHashMap<A>* AuxHashMap<A>::deserialize(std::istream& is, uint8_t lgConfigK,
   if (srcCompact) {
     for (uint32_t i = 0; i < auxCount; ++i) {
       const auto pair = read<int>(is);
+      if (!is.good())
+        throw std::runtime_error("error reading from std::istream");
       uint32_t slotNo = HllUtil<A>::getLow26(pair) & configKmask;
       uint8_t value = HllUtil<A>::getValue(pair);
       auxHashMap->mustAdd(slotNo, value);
@@ -123,6 +125,8 @@ AuxHashMap<A>* AuxHashMap<A>::deserialize(std::istream& is, uint8_t lgConfigK,
     const uint32_t itemsToRead = 1 << lgAuxArrInts;
     for (uint32_t i = 0; i < itemsToRead; ++i) {
       const auto pair = read<int>(is);
+      if (!is.good())
+        throw std::runtime_error("error reading from std::istream");
       if (pair == hll_constants::EMPTY) { continue; }
       const uint32_t slotNo = HllUtil<A>::getLow26(pair) & configKmask;
       const uint8_t value = HllUtil<A>::getValue(pair);
